@@ -146,6 +146,8 @@ func c13Machine(c *Ctx, kind string, maxL, maxBatch int, classes []string, cond 
 	decorated := strings.HasSuffix(kind, "+decorated")
 	kind = strings.TrimSuffix(kind, "+decorated")
 	kind = strings.Replace(kind, "+vars", "", 1)
+	rejected := strings.Contains(kind, "+rejected")
+	kind = strings.Replace(kind, "+rejected", "", 1)
 	capk := 0
 	if strings.HasSuffix(kind, "+cap2") {
 		kind, capk = strings.TrimSuffix(kind, "+cap2"), 2
@@ -168,6 +170,10 @@ func c13Machine(c *Ctx, kind string, maxL, maxBatch int, classes []string, cond 
 			}
 			if decorated {
 				return &nestInst{s: decorate(newStackKind(kind)).SetMutex().SetErr(errCat).SetNegativeIndices(true)}
+			}
+			if rejected {
+				// a validity policy that currently says no: what may be pushed is not its business
+				return &nestInst{s: newStackKind(kind).SetValidityPolicy(func(...any) error { return errCat })}
 			}
 			return &nestInst{s: newStackKind(kind)}
 		},
@@ -481,6 +487,7 @@ func c13Configs(c *Ctx) []c13Cfg {
 		}
 	}
 	out = append(out, c13Cfg{"OR+decorated", 2, 2, nestClasses, false})
+	out = append(out, c13Cfg{"AND+rejected", 2, 2, []string{"prim", "stack", "alias", "ptr-alias", "cond", "nil"}, false})
 	out = append(out, c13Cfg{"LIST+cap2", 2, 3, []string{"prim", "stack", "ptr-alias", "cond"}, false}, c13Cfg{"NOT+cap2", 2, 3, []string{"prim", "alias", "nil"}, false})
 	// pointers to alias variables the caller fills in and empties behind the stack's back
 	varClasses := []string{"prim", "ptr-alias-var", "stack", "nil"}
@@ -514,6 +521,30 @@ func init() {
 			c.Violation("hollow-value-seen-first", "after nil pointers / zero values of an alias type had been the first values of that type the library saw: "+msg, nil, 0)
 		}
 		c.Bound["long_batches"] = c13LongBatches(c)
+		// instances that accept nothing at all (never initialised, freed): CanNest is true exactly when a
+		// nested Stack would currently be accepted
+		for name, mk := range map[string]func() stackage.Stack{
+			"zero-valued Stack": func() stackage.Stack { return stackage.Stack{} },
+			"freed Stack":       func() stackage.Stack { s := stackage.And().Push("x"); s.Free(); return s },
+			"freed no-nesting Stack": func() stackage.Stack {
+				s := stackage.Or().SetNoNesting(true)
+				s.Free()
+				return s
+			},
+		} {
+			s := mk()
+			s.SetNoNesting(false)
+			s.Push(stackage.Or().Push("in"))
+			c.Transitions.Add(1)
+			if s.Len() != 0 || s.CanNest() || s.IsNesting() {
+				c.Violation("unusable-receiver", fmt.Sprintf("a %s accepted nothing (Len %d) yet reports CanNest()=%v IsNesting()=%v", name, s.Len(), s.CanNest(), s.IsNesting()), nil, 0)
+			}
+		}
+		var zc stackage.Condition
+		zc.SetExpression(stackage.Or().Push("in"))
+		if zc.CanNest() || zc.IsNesting() {
+			c.Violation("unusable-receiver", fmt.Sprintf("a zero-valued Condition reports CanNest()=%v IsNesting()=%v", zc.CanNest(), zc.IsNesting()), nil, 0)
+		}
 		c.Rule = "BFS to fix-point: state = element classes (primitive, nil, Stack, alias, alias with String, pointer to alias, pointer to Stack, nil pointer to alias / to Stack, Condition, Condition holding a Stack) x no-nesting flag; alphabet = every push batch up to the batch bound over those classes, set/clear/toggle of the option, Pop; a Condition machine does the same with SetExpression; non-trivial = distinct (state size, operation) where a Stack-like value was offered while the option was set"
 		c.Exhaustive = true
 		for _, cfg := range c13Configs(c) {
